@@ -118,6 +118,10 @@ example : ((run c [.new 0 0, .adv 11, .write 0 0 true, .adv 1, .tick]).tors 0).p
 example : DroppedBy c (run c [.new 0 0, .adv 11, .write 0 0 true, .adv 12]) .tick 0 := by decide
 example : ((run c [.new 0 0, .adv 11, .write 0 0 true]).tors 0).dl = true := by decide
 example : ((run c [.new 0 0, .adv 11, .write 0 0 true, .adv 12, .tick]).tors 0).dl = false := by decide
+-- the completion window: a download that took longer than the seeder limit completes at t=11 and is dropped as an
+-- idle seeder by a tick that comes before its completion event — the finished blob stays in the cache
+example : DroppedBy c (run c [.new 0 1, .adv 11, .write 0 1 true]) .tick 0 := by decide
+example : ((run c [.new 0 1, .adv 11, .write 0 1 true, .tick, .notice 0]).tors 0).cached = true := by decide
 -- a corrupted piece is not activity
 example : DroppedBy c (run c [.new 0 0, .adv 11, .write 0 0 false, .adv 1]) .tick 0 := by decide
 
